@@ -307,7 +307,7 @@ def scanner(flavour):
     """Stand-alone build of cmake/schema_scanner against a core build (as the top-level build does)."""
     bdir = core(flavour)
     d = os.path.join(bdir, 'verif_scanner')
-    exe = os.path.join(d, 'schema_scanner')
+    exe = os.path.join(bdir, 'bin', 'schema_scanner')   # SC_Outdirs.cmake puts it into <SC_BUILDDIR>/bin
     lk = _lock('scanner-' + flavour)
     try:
         if os.path.exists(exe):
